@@ -920,3 +920,30 @@ Definition run_conc_multi (inp : list Z) : list Z :=
       end
   | _ => bad_input
   end.
+
+(* ---- C05: histories with a live iterator ---- *)
+Fixpoint in_iops (fuel : nat) (l : list Z) : option (list iop) :=
+  match fuel with
+  | O => match l with [] => Some [] | _ => None end
+  | S f =>
+    match l with
+    | [] => Some []
+    | k :: r =>
+      if k =? 0 then match in_list r with
+                     | Some (bs, r') => option_map (cons (IOp (PFeed bs))) (in_iops f r')
+                     | None => None end
+      else if k =? 1 then match r with b :: r' => option_map (cons (IOp (PFeedByte b))) (in_iops f r') | [] => None end
+      else if k =? 2 then option_map (cons (IOp PGet)) (in_iops f r)
+      else if k =? 3 then option_map (cons (IOp PPending)) (in_iops f r)
+      else if k =? 4 then option_map (cons (IOp PIterAll)) (in_iops f r)
+      else if k =? 5 then match r with n :: r' => option_map (cons (IOp (PIterTake (Z.to_nat n)))) (in_iops f r') | [] => None end
+      else if k =? 6 then option_map (cons INew) (in_iops f r)
+      else if k =? 7 then option_map (cons INext) (in_iops f r)
+      else None
+    end
+  end.
+Definition run_iter_ops (inp : list Z) : list Z :=
+  match in_iops (length inp) inp with
+  | Some ops => let '(s, obs) := i_run i_init ops in flat_map out_obs obs ++ [-9] ++ out_msgs (p_q (i_p s))
+  | None => bad_input
+  end.
